@@ -1,18 +1,17 @@
-\* trees T4i (a longer branch of the Byzantine producer with a block that fails in execute() at its 1st, 2nd or 3rd position): one observer, blocks in order and children first, no restart (with a restart the unsaved status shows: MC_DposLib_unsaved.cfg): all properties
+\* simulation: 4 producers, producer 3 Byzantine (equivocates, Confirms filled the honest way per branch), some of its blocks fail in execute(), 3 correct nodes, up to 16 blocks, runs of blocks children first, no restart; all properties
 SPECIFICATION Spec
 CONSTANTS
   N = 4
   Byz <- Byz3
-  Nodes <- Obs1
-  Blk0s <- T4iExec
-  MaxBlocks = 12
+  Nodes <- Nodes012
+  Blk0s <- NoBlocks
+  MaxBlocks = 16
   MaxRestarts = 0
   ByzMode = "branch"
   ByzRanges <- R123
   Runs = TRUE
-  BadKinds <- OnlyOk
+  BadKinds <- OkExec
   Fixes <- AllFixes
-VIEW view
 INVARIANTS TypeOK LibOnMain ConfirmsOnMain ProposalsOnMain StatusBestIsBest Agreement HonestConfirms
 PROPERTIES LibMonotone Final NoForkBelowLib LibQuorum RestoreEqualsRecompute AfterAbandonedReorgStatusMatchesMainChain
 CHECK_DEADLOCK FALSE
